@@ -4,9 +4,19 @@ import "verif/checker/internal/core"
 
 func init() {
 	register(&Prop{
+		ID:    "C06",
+		Rules: []*Rule{rEsc, rBufFlag, rVerbDispatch, {Name: "R-TAINT/redactable", Doc: "the S3 sub-class of R-TAINT that concerns well-formedness: every conversion of a plain string/[]byte to redact.RedactableString/RedactableBytes takes a value that was BUILT as a redactable string (redact.Sprint*/Redact(), a typed RedactableString input, or the wire slot an encoder fills from one) - never a merely safe plain string, whose marker runes would not be escaped",
+			Run: func(c *core.Ctx) { runTaintFiltered(c, func(s *Sink) bool { return s.Mode == "redactable" }) }}},
+		Explain: "Decides the structural half of well-formedness and of the refusal clause: unsafe layer text reaches the redactable buffer only escaped-and-enclosed (R-ESC); the 'already redactable' flag is set only for text produced by the safe printer (R-BUFFLAG); plain strings are never re-labelled as redactable without escaping; the verb dispatch refuses %q/%x/%X/%#v under redactable output and honours width/precision in every case (exhaustive evaluation of the guard predicates). " +
+			"NOT decided: balance/non-nesting/per-line balance for arbitrary input bytes (the redact package's escaping and state.Write's newline bookkeeping are loop arithmetic over runtime bytes), and marker-stripping congruence with the plain rendering.",
+		Trusted: []string{"go/ssa, go/ast", "redact.EscapeBytes / redact.Sprint* produce well-formed markers"},
+	})
+	register(&Prop{
 		ID:    "C03",
-		Rules: []*Rule{rTaint, rSpecialLeaf},
-		Explain: "interim",
+		Rules: []*Rule{rTaint, rSpecialLeaf, rEsc, rBufFlag},
+		Explain: "Decides, for EVERY PII-free output position of the module and every value that can reach it (all compositions, hops and unknowing receivers at once, because decoders, opaque types and encoders are sources/sinks like any other), that its data origins lie in the library's documented safe classes: " +
+			"S1 SafeDetails()/GetSafeDetails payloads, S2 encoders' reportable strings, S3 every redact.Safe/Safe*-conversion/format-string/RedactableString-conversion site, S4 the formatter's final buffer (raw layer text only under !redactable || entry.redactable, else escaped; redactable flag only on safe-printer arms), S5 every write into the Sentry message/exception/extras; the special-case printers declare whole texts safe only for true leaves. " +
+			"NOT decided: the redact package's own escaping of marker runes and newlines inside strings (hostile alphabet), third-party SafeDetails()/SafeFormatter implementations (contract trusted).",
 		Trusted: []string{"go/ssa"},
 	})
 	register(&Prop{
@@ -25,7 +35,7 @@ func init() {
 	})
 	register(&Prop{
 		ID:    "C09",
-		Rules: []*Rule{rFmtDelegate, rShape, rDetailPrint},
+		Rules: []*Rule{rFmtDelegate, rShape, rDetailPrint, rVerbDispatch},
 		Explain: "Decides the code-level reasons the verbs are mutually consistent: every instantiated library type routes Format through the single dispatcher FormatError; Error() and the detail formatter of each type agree on the message shape (so %v/%s = Error() at every depth); each wrapper's annotation fields reach a Print inside the detail region. " +
 			"NOT decided: width/precision/flag rendering (delegated to fmt), entry numbering/indentation and the 'Error types' line (loop arithmetic over runtime lists), comparison with reference renderings.",
 		Trusted: []string{"go/ssa", "fmt and redact formatting semantics"},
